@@ -202,4 +202,18 @@ CHECKS = {
              'Outputs are compared with the calendar predicate after every step, except within 60 ms of a boundary and '
              'during the hour after a jump; a jump must never stop the simulation.',
         note='Fixed-offset local time zone; no real-time scheduling jitter beyond the modelled latencies.'),
+    'C06': dict(
+        level='fault_enumeration', design_ref='DESIGN.md 4/C06',
+        technique=PBT + ' with enumerated crash points: every storage snapshot of a generated history x generated downtimes is restarted on a virtual wall clock; round-trip (crash/restart) oracle plus a control run with empty storage',
+        text='Circuits of persistent Input / Counter / Timer / InputExp / generated timed FSM (sdata, entry actions, chained '
+             'transitions) / TimeDate / TimeSpan blocks with sync_state on/off, expiration None/<=0/short/long and '
+             'pre-existing storage content are driven through generated histories (events incl. rejected and malformed '
+             'ones, a failing handler, waits that let timers fire) ending in a regular stop, abort() or a failed start(). '
+             'After initialisation, after every step and at the stop the stored entry must deep-equal get_state() (sync on) '
+             'or stay untouched (sync off / after a handler error / failed start); the stop writes all states and the stop '
+             'timestamp. Restarts from the snapshots after downtimes on both sides of the remaining timer and of the '
+             'expiration must restore state, sdata, output and the absolute expiry (observed 5 ms before/after it) without '
+             're-running entry actions, or initialise normally when the timer ran out or the state expired; unused keys '
+             'are removed, edzed-* keys kept.',
+        note='Normal initialisation is taken from a control run with an empty storage at the same wall time.'),
 }
